@@ -36,6 +36,94 @@ fn weights(tamper: bool) -> OpWeights {
 	}
 }
 
+/// schedules for the restart part: async persistence on most of the time, frequent reconnects, manager
+/// snapshots at generated moments, crashes (restart from a snapshot + durable or landed monitors) and user
+/// force-closes afterwards
+fn restart_weights() -> OpWeights {
+	OpWeights {
+		send: 26,
+		claim: 12,
+		fail: 4,
+		deliver: 44,
+		flush: 3,
+		events: 10,
+		forwards: 8,
+		disconnect: 9,
+		reconnect: 12,
+		timer: 1,
+		async_toggle: 8,
+		complete: 7,
+		pump: 5,
+		force_close: 5,
+		snapshot: 8,
+		restart: 7,
+		mine: 2,
+		..OpWeights::zero()
+	}
+}
+
+fn restart_strat(max_ops: usize) -> impl Strategy<Value = Case> {
+	(world_spec(vec![Topology::Pair]), proptest::collection::vec(op_strategy(restart_weights()), 25..max_ops)).prop_map(|(spec, ops)| Case { spec, ops })
+}
+
+/// Restart part: the commitment-content oracle is not run (C01's domain, and it does not follow restarts);
+/// the revocation oracle is a function of the signer / wire / broadcast history only and carries over.
+fn run_restart(c: &Case, ctx: &mut Ctx) -> CaseResult {
+	let mut sim = c.spec.build(false);
+	let r = run_restart_inner(c, ctx, &mut sim);
+	if ctx.replay && r.is_err() {
+		println!("==== history ====\n{}", dump_history(&sim));
+	}
+	r
+}
+
+fn run_restart_inner(c: &Case, ctx: &mut Ctx, sim: &mut netsim::sim::Sim) -> CaseResult {
+	let mut ro = RevokeOracle::new(sim);
+	let mut keys = initial_keys_map(sim);
+	let mut tags: Vec<&'static str> = vec![];
+	let (mut restarts, mut closed, mut closed_after_restart, mut lost_inflight) = (0u32, false, false, false);
+	for i in 0..sim.w.n {
+		sim.snapshot_manager(i);
+	}
+	for op in c.ops.iter() {
+		if let Op::Restart { node, landed, .. } = op {
+			let nd = pick(*node, sim.w.n);
+			if !*landed && !sim.w.pending_updates(nd).is_empty() {
+				lost_inflight = true;
+			}
+		}
+		let tag = apply(sim, &c.spec, op);
+		tags.push(tag);
+		match tag {
+			"restart" => restarts += 1,
+			"restart-failed" => return Err(Failure::new("restart-deserialization", sim.last_restart_error.clone().unwrap_or_default())),
+			"force-close" => {
+				closed = true;
+				closed_after_restart |= restarts > 0;
+			},
+			_ => {},
+		}
+		ro.step(sim, &mut keys)?;
+	}
+	sim.settle(30);
+	ro.step(sim, &mut keys)?;
+	ro.finish()?;
+	let st = &ro.stats;
+	ctx.label_if(restarts > 0, "restarted");
+	ctx.label_if(restarts > 1, "restarted-twice+");
+	ctx.label_if(lost_inflight, "in-flight-monitor-write-lost-at-crash");
+	ctx.label_if(closed, "force-closed");
+	ctx.label_if(closed_after_restart, "force-closed-after-restart");
+	ctx.label_if(st.re_releases > 0, "secret-re-released-on-retransmit");
+	ctx.label_if(st.commitment_broadcasts > 0, "commitment-broadcast-seen");
+	ctx.label_if(st.holder_signatures > 0, "holder-commitment-signed");
+	ctx.sub_evaluations(st.releases + st.counterparty_signatures + st.secrets_checked);
+	let both2 = st.updates_each_dir[0] >= 2 && st.updates_each_dir[1] >= 2;
+	ctx.nontrivial_if(both2 && restarts > 0 && (st.commitment_broadcasts > 0 || st.re_releases > 0));
+	ctx.summary(json!({"type": format!("{:?}", c.spec.ctype), "ops": tags, "secrets_released": st.releases, "restarts": restarts, "commitment_broadcasts": st.commitment_broadcasts}));
+	Ok(())
+}
+
 fn strat(tamper: bool, max_ops: usize) -> impl Strategy<Value = Case> {
 	(world_spec(vec![Topology::Pair]), proptest::collection::vec(op_strategy(weights(tamper)), 25..max_ops)).prop_map(|(spec, ops)| Case { spec, ops })
 }
@@ -120,6 +208,18 @@ fn main() {
 		},
 		|| strat(true, 70),
 		|c, ctx| run(c, ctx, true),
+	);
+	c.assume("restart part: a node restarts from any manager snapshot it wrote (generated moments) together with, per channel, the newest monitor image whose write was acknowledged -- or, generated, the newest one written at all; this is the set of states the persistence contract allows a crash to leave behind");
+	c.part_with(
+		PartSpec {
+			name: "restart",
+			rule: "pair channel under mostly-asynchronous persistence with generated disconnects, manager snapshots, crashes/restarts (durable or landed monitor images, any snapshot) and user force-closes; the same revocation rules are checked over the whole history across restarts (a secret released before the crash stays released). Non-trivial: >=2 revocations in each direction, >=1 restart, and a commitment broadcast or a re-released secret afterwards",
+			quick_cases: 1800,
+			thorough_cases: 80_000,
+			max_shrink: 500,
+		},
+		|| restart_strat(100),
+		run_restart,
 	);
 	c.finish();
 }
